@@ -574,11 +574,18 @@ impl<R: Read + Seek> Seek for CompressionLayerReader<'_, R> {
 struct WriterWithCount<W: Write> {
     inner: W,
     pos: u32,
+    /// First error returned by `inner`, kept because the compressor discards
+    /// the errors met while it is being closed
+    error: Option<io::Error>,
 }
 
 impl<W: Write> WriterWithCount<W> {
     const fn new(inner: W) -> Self {
-        Self { inner, pos: 0 }
+        Self {
+            inner,
+            pos: 0,
+            error: None,
+        }
     }
 
     fn into_inner(self) -> W {
@@ -588,7 +595,7 @@ impl<W: Write> WriterWithCount<W> {
 
 impl<W: Write> Write for WriterWithCount<W> {
     fn write(&mut self, buf: &[u8]) -> io::Result<usize> {
-        self.inner.write(buf).inspect(|&i| {
+        let res = self.inner.write(buf).inspect(|&i| {
             match u32::try_from(i) {
                 Ok(value) => self.pos += value,
                 Err(_) => {
@@ -596,7 +603,13 @@ impl<W: Write> Write for WriterWithCount<W> {
                     let _ = io::Error::new(io::ErrorKind::InvalidData, "Integer conversion failed");
                 }
             }
-        })
+        });
+        if let Err(err) = &res {
+            if err.kind() != io::ErrorKind::Interrupted && self.error.is_none() {
+                self.error = Some(io::Error::new(err.kind(), err.to_string()));
+            }
+        }
+        res
     }
 
     fn flush(&mut self) -> io::Result<()> {
@@ -684,7 +697,11 @@ impl<'a, W: 'a + InnerWriterTrait> LayerWriter<'a, W> for CompressionLayerWriter
         let mut inner = match old_state {
             CompressionLayerWriterState::Ready(inner) => inner,
             CompressionLayerWriterState::InData(written, compress) => {
-                let inner_count = compress.into_inner();
+                let mut inner_count = compress.into_inner();
+                // Closing the compressor writes its last bytes, errors included
+                if let Some(err) = inner_count.error.take() {
+                    return Err(err.into());
+                }
                 self.compressed_sizes.push(inner_count.pos);
                 last_block_size = written;
                 inner_count.into_inner()
@@ -782,7 +799,11 @@ impl<'a, W: 'a + InnerWriterTrait> Write for CompressionLayerWriter<'a, W> {
                     ).into());
                 }
                 if written == UNCOMPRESSED_DATA_SIZE {
-                    let inner_count = compress.into_inner();
+                    let mut inner_count = compress.into_inner();
+                    // Closing the compressor writes its last bytes, errors included
+                    if let Some(err) = inner_count.error.take() {
+                        return Err(err);
+                    }
                     self.compressed_sizes.push(inner_count.pos);
                     self.state = CompressionLayerWriterState::Ready(inner_count.into_inner());
                     // Start a new block, fill it with new values!
